@@ -414,6 +414,16 @@ func c07() {
 		}
 		pDecode(t, b)
 		pScan(b)
+		// the same fields occurring again (legal protobuf: scalars take the last occurrence, repeated fields append,
+		// messages merge): the encodings of two or three values of the type concatenated, shorter and longer
+		// payloads in both orders
+		if v2 := g.value(t, 0); true {
+			if b2, err := proto.Marshal(t.toGo(v2).Addr().Interface()); err == nil {
+				pDecode(t, append(append([]byte(nil), b...), b2...))
+				pDecode(t, append(append([]byte(nil), b2...), b...))
+				pDecode(t, append(append(append([]byte(nil), b2...), b...), b2...))
+			}
+		}
 		// the value the encoding decodes to: inserting unknown fields must not change it
 		base := guarded(func() string {
 			y := reflect.New(t.goType())
